@@ -67,6 +67,11 @@ func corpus() []*refcodec.Packet {
 		}
 		add(refcodec.Packet{Type: refcodec.SUBACK, ID: 12, Codes: codes})
 	}
+	// repeated filters in one request (well-formed: one return code per entry is due)
+	rep := [][]byte{[]byte("a/b"), []byte("c"), []byte("a/b"), []byte("c")}
+	add(refcodec.Packet{Type: refcodec.SUBSCRIBE, ID: 20, Topics: rep, QoSs: []byte{0, 1, 2, 1}})
+	add(refcodec.Packet{Type: refcodec.UNSUBSCRIBE, ID: 21, Topics: rep})
+	add(refcodec.Packet{Type: refcodec.SUBSCRIBE, ID: 22, Topics: [][]byte{[]byte("x"), []byte("x")}, QoSs: []byte{1, 1}})
 	ts, qs := topicList(2, []int{127, 128})
 	add(refcodec.Packet{Type: refcodec.SUBSCRIBE, ID: 300, Topics: ts, QoSs: qs})
 	add(refcodec.Packet{Type: refcodec.UNSUBSCRIBE, ID: 301, Topics: ts})
